@@ -1,6 +1,7 @@
 package main
 
 import (
+	"bytes"
 	"encoding/json"
 	"fmt"
 	"os"
@@ -26,7 +27,20 @@ func runSharded(prop string, ck *check, tier, out string, budget time.Duration) 
 			o := fmt.Sprintf("%s.shard%d", out, i)
 			cmd := exec.Command(os.Args[0], "run", "--prop", prop, "--tier", tier, "--out", o, "--budget", budget.String())
 			cmd.Env = append(os.Environ(), fmt.Sprintf("VERIF_SHARD=%d/%d", i, n), "GOMAXPROCS=2")
-			b, err := cmd.CombinedOutput()
+			var ob bytes.Buffer
+			cmd.Stdout, cmd.Stderr = &ob, &ob
+			err := cmd.Start()
+			if err == nil {
+				done := make(chan error, 1)
+				go func() { done <- cmd.Wait() }()
+				select {
+				case err = <-done:
+				case <-time.After(budget + 25*time.Minute):
+					cmd.Process.Kill()
+					err = fmt.Errorf("worker did not finish within its budget + 25 min (killed)")
+				}
+			}
+			b := ob.Bytes()
 			if err != nil {
 				if ee, ok := err.(*exec.ExitError); ok && ee.ExitCode() == 3 {
 					what, _ := os.ReadFile(o + ".hang")
